@@ -15,6 +15,7 @@ pub mod c12;
 pub mod c13;
 pub mod c14;
 pub mod c15;
+pub mod c16;
 pub mod c17;
 pub mod c18;
 pub mod c19;
@@ -42,6 +43,7 @@ pub fn dispatch(ctx: &Ctx) -> Option<(CheckMeta, Acc)> {
         "C13" => Some(c13::run(ctx)),
         "C14" => Some(c14::run(ctx)),
         "C15" => Some(c15::run(ctx)),
+        "C16" => Some(c16::run(ctx)),
         "C17" => Some(c17::run(ctx)),
         "C18" => Some(c18::run(ctx)),
         "C19" => Some(c19::run(ctx)),
